@@ -601,6 +601,10 @@ pub fn encode(p: &Placement, config_path: Option<&str>) -> Encoded {
     let new_syntax = p.sloppy_ws || p.custom.len() % 2 == 1;
     let param = |k: &str, v: &str| if new_syntax { format!("'{}'='{}'", k, v) } else { format!("'{}={}'", k, v) };
     if let Some(v) = &p.envparam_value {
+        // the same key twice (`git -c delta.x=a -c delta.x=b`): the last entry counts
+        if probe.ty == PType::Str && spelling_of(p) % 2 == 1 {
+            params.push(param(&format!("delta.{}", p.probe), "earlier-entry-that-loses"));
+        }
         params.push(param(&format!("delta.{}", p.probe), v));
     }
     if let Some(f) = &p.envparam_features {
@@ -691,7 +695,16 @@ impl<'a> Builder<'a> {
             return "0".to_string();
         }
         match self.probe.ty {
-            PType::Str => format!("V{}x{}", self.n_val, rng.below(90) + 10),
+            // one string value in four contains a '=' (harmless everywhere, but a separator in
+            // GIT_CONFIG_PARAMETERS entries)
+            PType::Str => {
+                let n = rng.below(90) + 10;
+                if n % 4 == 0 {
+                    format!("V{}x={}", self.n_val, n)
+                } else {
+                    format!("V{}x{}", self.n_val, n)
+                }
+            }
             PType::Float => format!("0.{}{}", self.n_val, rng.below(9) + 1),
             PType::Int => format!("{}{}", self.n_val, rng.below(9) + 1),
             PType::Bool => (if rng.chance(1, 2) { "true" } else { "false" }).to_string(),
